@@ -15,8 +15,10 @@
       [next_token_number].  Each item is paired with [find_iter.current_mode()] read BEFORE the
       call of [next] (this is what [TokenStream::read_tokens] does), i.e. the scanner mode in which
       the match was produced, and the mode after the last match for the end-of-input tokens.
-      NOTE: [k0] is the [k] handed to [TokenStream::new] UNCHANGED (it may be 0), whereas the
-      stream itself uses [max(1, k)].
+      NOTE: the [k] of the [TokenIter] is what [TokenStream::new_with_skip_tokens] gives it.
+      Current code: [max(1, k)] (the same value the stream uses) - see [stream_tokens],
+      [eoi_tokens].  At the pinned commit it was the caller's [k] UNCHANGED (possibly 0) while
+      the stream used [max(1, k)] - see [stream_tokens_old], [eoi_tokens_old].
     - [TokenBuffer::add] ([buf_add]): the gap token of type [INVALID_TOKEN] from
       [last_token_location] to the start of the new token when [last_token_location < start],
       its token number ([last_token_number + 1], or [MAX] if that is [MAX]), the update of
@@ -188,9 +190,15 @@ Definition flag_token (mt : N * token) : token :=
 (** The tokens for the scanner matches, with their skip flags. *)
 Definition match_tokens (ms : list smatch) : list token := map flag_token (iter_matches ms 0).
 
-(** The end-of-input tokens of the iterator, with their skip flags. *)
+(** The end-of-input tokens of an iterator created with lookahead size [k], with their skip
+    flags. *)
+Definition eoi_tokens_old (ms : list smatch) (k : nat) : list token :=
+  map flag_token (iter_eois k (iter_num ms 0)).
+
+(** ... for a stream created with [TokenStream::new(.., k0, ..)]: the iterator gets
+    [max(1, k0)].  ([eoi_tokens_old]: pinned commit, the iterator got [k0].) *)
 Definition eoi_tokens (ms : list smatch) (k0 : nat) : list token :=
-  map flag_token (iter_eois k0 (iter_num ms 0)).
+  eoi_tokens_old ms (Nat.max 1 k0).
 
 (** The gap token in front of the first end-of-input token (unmatched text at the very end). *)
 Definition trailing_gap (last lastnum : N) : list token :=
@@ -205,8 +213,12 @@ Definition all_tokens (ms : list smatch) : list token :=
 
 (** Everything the buffer ever holds when the iterator items are added one by one (without the
     [Token::eoi(MAX)] fillers): [gapped 0 0] of the flagged iterator output. *)
+Definition stream_tokens_old (ms : list smatch) (k : nat) : list token :=
+  gapped 0 0 (map flag_token (token_iter ms k)).
+
+(** ... for a stream created with [TokenStream::new(.., k0, ..)] (current code). *)
 Definition stream_tokens (ms : list smatch) (k0 : nat) : list token :=
-  gapped 0 0 (map flag_token (token_iter ms k0)).
+  stream_tokens_old ms (Nat.max 1 k0).
 
 Definition significant_tokens (ms : list smatch) : list token := filter significant (all_tokens ms).
 
@@ -232,10 +244,10 @@ Qed.
 
 (** With at least one end-of-input token from the iterator, the buffer contents are
     [all_tokens] followed by the end-of-input tokens. *)
-Theorem stream_tokens_eq ms k0 : (1 <= k0)%nat ->
-  stream_tokens ms k0 = all_tokens ms ++ eoi_tokens ms k0.
+Theorem stream_tokens_old_eq ms k0 : (1 <= k0)%nat ->
+  stream_tokens_old ms k0 = all_tokens ms ++ eoi_tokens_old ms k0.
 Proof.
-  intros Hk. unfold stream_tokens, token_iter, all_tokens, eoi_tokens.
+  intros Hk. unfold stream_tokens_old, token_iter, all_tokens, eoi_tokens_old.
   rewrite map_app, gapped_app. fold (match_tokens ms).
   rewrite <- app_assoc. f_equal.
   destruct k0 as [|k0]; [lia|].
@@ -245,11 +257,16 @@ Proof.
   destruct (N.ltb (end_loc 0 (match_tokens ms)) len); reflexivity.
 Qed.
 
-(** With [k0 = 0] the iterator yields no end-of-input token: nothing is ever added at
-    [input.len()], so the trailing gap is never created. *)
-Lemma stream_tokens_k0 ms : stream_tokens ms 0 = gapped 0 0 (match_tokens ms).
+(** Current code, every [k0]: the iterator always yields an end-of-input token. *)
+Theorem stream_tokens_eq ms k0 :
+  stream_tokens ms k0 = all_tokens ms ++ eoi_tokens ms k0.
+Proof. apply stream_tokens_old_eq. lia. Qed.
+
+(** Pinned commit with [k0 = 0]: the iterator yields no end-of-input token, nothing is ever
+    added at [input.len()], so the trailing gap is never created. *)
+Lemma stream_tokens_old_k0 ms : stream_tokens_old ms 0 = gapped 0 0 (match_tokens ms).
 Proof.
-  unfold stream_tokens, token_iter. cbn [iter_eois]. rewrite app_nil_r. reflexivity.
+  unfold stream_tokens_old, token_iter. cbn [iter_eois]. rewrite app_nil_r. reflexivity.
 Qed.
 
 (** [all_tokens] is what [TokenBuffer::add] produces for the matches and one end-of-input token. *)
@@ -257,7 +274,7 @@ Theorem all_tokens_is_buffer ms :
   b_toks (buf_add_all (map flag_token (token_iter ms 1)) buf_new) = all_tokens ms ++ eoi_tokens ms 1.
 Proof.
   rewrite buf_add_all_spec. cbn [buf_new b_toks b_last_loc b_last_num app].
-  apply (stream_tokens_eq ms 1). lia.
+  apply (stream_tokens_eq ms 1).
 Qed.
 
 (** ** Contiguity *)
@@ -356,12 +373,15 @@ Proof.
 Qed.
 
 (** The iterator's end-of-input tokens are empty tokens at [len]. *)
-Lemma eoi_tokens_chain ms k0 : chain len (eoi_tokens ms k0) len.
+Lemma eoi_tokens_old_chain ms k0 : chain len (eoi_tokens_old ms k0) len.
 Proof.
-  unfold eoi_tokens. generalize (iter_num ms 0). induction k0 as [|k0 IH]; intros num; cbn [iter_eois map chain].
+  unfold eoi_tokens_old. generalize (iter_num ms 0). induction k0 as [|k0 IH]; intros num; cbn [iter_eois map chain].
   - reflexivity.
   - rewrite flag_token_start, flag_token_end. cbn [snd t_start t_end]. repeat split; try lia. apply IH.
 Qed.
+
+Lemma eoi_tokens_chain ms k0 : chain len (eoi_tokens ms k0) len.
+Proof. apply eoi_tokens_old_chain. Qed.
 
 End Scan.
 
@@ -527,6 +547,7 @@ Example ex_gap_numbers :
   [mkTok 5 0 1 0 false; mkTok INVALID_TOKEN 1 2 1 false; mkTok 6 2 3 1 false].
 Proof. vm_compute. reflexivity. Qed.
 
+Print Assumptions stream_tokens_old_eq.
 Print Assumptions stream_tokens_eq.
 Print Assumptions all_tokens_is_buffer.
 Print Assumptions all_tokens_contiguous.
